@@ -376,4 +376,294 @@ theorem dfLeftB_spec (fuel n : Nat) (s : State F) (xl : Sh) (x : Nat) (xr : Sh) 
           simp only [hcp]
           rfl
 
+/-- the part of the right branch after case 1 -/
+def dfRightB : St :=
+  (.seq (.ite (.cmpI .eq (.var "_rb_delete_fixup17$w") (.lit (-1)))
+      (.seq (.setI "_rb_delete_fixup17$x" (.var "_rb_delete_fixup17$x_parent"))
+      .cont)
+      .skip)
+  (.seq (.setI "_rb_delete_fixup17$w_left" (.ld2 "tree_nodes" (.var "_rb_delete_fixup17$w") (.lit 1)))
+  (.seq (.setI "_rb_delete_fixup17$w_right" (.ld2 "tree_nodes" (.var "_rb_delete_fixup17$w") (.lit 2)))
+  (.seq (.setI "_rb_delete_fixup17$x_parent" (.ld2 "tree_nodes" (.var "_rb_delete_fixup17$x") (.lit 3)))
+  (.ite (.and (.cmpI .eq (.ld2 "tree_nodes" (.var "_rb_delete_fixup17$w_right") (.lit 0)) (.lit 1)) (.cmpI .eq (.ld2 "tree_nodes" (.var "_rb_delete_fixup17$w_left") (.lit 0)) (.lit 1)))
+    dfCase2R
+    (.seq (.ite (.cmpI .eq (.ld2 "tree_nodes" (.var "_rb_delete_fixup17$w_left") (.lit 0)) (.lit 1))
+        (.seq (.stI2 "tree_nodes" (.var "_rb_delete_fixup17$w_right") (.lit 0) (.lit 1))
+        (.seq (.stI2 "tree_nodes" (.var "_rb_delete_fixup17$w") (.lit 0) (.lit 0))
+        (dlrot30
+        (.setI "_rb_delete_fixup17$w" (.ld2 "tree_nodes" (.var "_rb_delete_fixup17$x_parent") (.lit 1))))))
+        .skip)
+    (.seq (.stI2 "tree_nodes" (.var "_rb_delete_fixup17$w") (.lit 0) (.ld2 "tree_nodes" (.var "_rb_delete_fixup17$x_parent") (.lit 0)))
+    (.seq (.stI2 "tree_nodes" (.var "_rb_delete_fixup17$x_parent") (.lit 0) (.lit 1))
+    (.seq (.setI "_rb_delete_fixup17$w_left" (.ld2 "tree_nodes" (.var "_rb_delete_fixup17$w") (.lit 1)))
+    (.seq (.stI2 "tree_nodes" (.var "_rb_delete_fixup17$w_left") (.lit 0) (.lit 1))
+    (drrot33
+    (.setI "_rb_delete_fixup17$x" (.var "_rb_delete_fixup17$root")))))))))))))
+
+theorem dfRight_eq : dfRight =
+    (.seq (.setI "_rb_delete_fixup17$x_parent" (.ld2 "tree_nodes" (.var "_rb_delete_fixup17$x") (.lit 3)))
+    (.seq (.setI "_rb_delete_fixup17$w" (.ld2 "tree_nodes" (.var "_rb_delete_fixup17$x_parent") (.lit 1)))
+    (.seq (dfCase1 1 drrot27) dfRightB))) := rfl
+
+/-- **the iteration after case 1, `x` the right child** -/
+theorem dfRightB_spec (fuel n : Nat) (s : State F) (xl : Sh) (x : Nat) (xr : Sh) (p : Nat) (wB : Sh) (restB : Ctx)
+    (c1 : Bool) (bound : Nat) (h : DFCore s n xl x xr (.R wB p :: restB))
+    (ew : s.ienv "_rb_delete_fixup17$w" = wB.ptr) (exp : s.ienv "_rb_delete_fixup17$x_parent" = p)
+    (hc1 : c1 = true → nAt (s.ia "tree_nodes") p 0 = 0) (hb : c1 = false → restB.length < bound) :
+    DFStep (vAt (s.fa "tree_vals") (n - 1) 7) s (exec fuel dfRightB s) n xl x xr (.R wB p :: restB) bound
+      (dfB (vAt (s.fa "tree_vals") (n - 1) 7) Dir.R c1 (restB.map Fr.dir)
+        (delFixP (vAt (s.fa "tree_vals") (n - 1) 7) (restB.map Fr.dir))
+        (absT (s.fa "tree_vals") (s.ia "tree_nodes") (plug (.node xl x xr) (.R wB p :: restB)))) := by
+  obtain ⟨hv, hrun, hL, hN, hx, hroot, hnil, hcol⟩ := h
+  obtain ⟨hlx, hcx, _⟩ := unplug _ _ hL hN
+  have hx3 : nAt (s.ia "tree_nodes") x 3 = p := hlx.2.2.2.1
+  have hxn : x + 1 < n := hlx.1
+  obtain ⟨hpn, hp1, _, _, _, hlw, _⟩ := hcx
+  have hpg : (restB.map Fr.dir).reverse = pathOf restB := map_dir_reverse restB
+  have hpw : pathOf restB ++ [Dir.L] = pathOf (.L p (.node xl x xr) :: restB) := rfl
+  generalize hS : vAt (s.fa "tree_vals") (n - 1) 7 = S
+  generalize hT : absT (s.fa "tree_vals") (s.ia "tree_nodes") (plug (.node xl x xr) (.R wB p :: restB)) = T
+  have hsubw : subAt (pathOf restB ++ [Dir.L]) T = absT (s.fa "tree_vals") (s.ia "tree_nodes") wB := by
+    rw [← hT, hpw]; exact subAt_plug _ _ (.L p (.node xl x xr) :: restB) wB
+  have hsubp : ∀ (V' : List F) (N' : List Int) (sib : Sh), isRed (subAt (pathOf restB)
+      (absT V' N' (plug (.node xl x xr) (.R sib p :: restB)))) = decide (nAt N' p 0 = 0) := fun V' N' sib => by
+    show isRed (subAt (pathOf restB) (absT V' N' (plug (.node sib p (.node xl x xr)) restB))) = _
+    rw [subAt_plug]; rfl
+  cases wB with
+  | nil =>
+    -- NIL sibling: `x = x_parent; continue`
+    have hwv : s.ienv "_rb_delete_fixup17$w" = -1 := ew
+    have hr : exec fuel dfRightB s = { s with ienv := setS s.ienv "_rb_delete_fixup17$x" (s.ienv "_rb_delete_fixup17$x_parent"), ctl := .cont } := by
+      simp only [dfRightB]
+      rw [exec_seq_stop _ _ _ _ (by
+        rw [exec_ite_true _ _ _ _ _ (by simp [BE.ok, IE.ok_var, IE.ok_lit]) (by simp [BE.eval, IE.eval_var, IE.eval_lit, cmpInt, hwv]),
+          dnilR_spec fuel s hrun]; simp),
+        exec_ite_true _ _ _ _ _ (by simp [BE.ok, IE.ok_var, IE.ok_lit]) (by simp [BE.eval, IE.eval_var, IE.eval_lit, cmpInt, hwv]),
+        dnilR_spec fuel s hrun]
+    rw [hr]
+    refine ⟨Or.inr rfl, .nil, p, .node xl x xr, restB, ?_, ?_, rfl, hS, ?_⟩
+    · exact ⟨hv.of_eq rfl rfl rfl, rfl, hL, hN, by simp [runOf, setS, exp], by simp [runOf, setS, hroot]; rfl, hnil, hcol⟩
+    · cases c1 with
+      | false => exact Or.inl (hb rfl)
+      | true => exact Or.inr (Or.inr (hc1 rfl))
+    · show delFixP S (restB.map Fr.dir) (absT (s.fa "tree_vals") (s.ia "tree_nodes") (plug (.node .nil p (.node xl x xr)) restB)) = _
+      have hT' : absT (s.fa "tree_vals") (s.ia "tree_nodes") (plug (.node .nil p (.node xl x xr)) restB) = T := hT
+      rw [hT', dfB_nil S Dir.R c1 _ _ T (by rw [hpg]; exact hsubw)]
+      cases c1 with
+      | false => rfl
+      | true =>
+        simp only [if_true]
+        rw [← hT']
+        exact delFixP_stop S _ _ _ _ _ restB (Or.inr (hc1 rfl))
+  | node wl w wr =>
+    simp only [Sh.ptr] at ew hp1
+    obtain ⟨hwn, hw1, hw2, _, hlwl, hlwr⟩ := hlw
+    have hwne : ¬ ((w : Int) = -1) := by omega
+    have hinw : inRange (w : Int) n = true := inRange_ptr n _ (by omega) hv.pos
+    have hinx : inRange (x : Int) n = true := inRange_ptr n _ (by omega) hv.pos
+    -- the three reads
+    have h1 := exec_ldN fuel n s hv.shpN "_rb_delete_fixup17$w_left" "_rb_delete_fixup17$w" 1 (by decide)
+      (by rw [ew]; exact hinw) wl.ptr (by rw [ew, rowOf_nat]; exact hw1)
+    generalize hs1 : ({ s with ienv := setS s.ienv "_rb_delete_fixup17$w_left" wl.ptr } : State F) = s1 at h1
+    have hv1 : VS s1 n := by rw [← hs1]; exact hv.of_eq rfl rfl rfl
+    have hrun1 : s1.ctl = .run := by rw [← hs1]; exact hrun
+    have hia1 : s1.ia = s.ia := by rw [← hs1]
+    have ew1 : s1.ienv "_rb_delete_fixup17$w" = w := by rw [← hs1]; simp [setS, ew]
+    have h2 := exec_ldN fuel n s1 hv1.shpN "_rb_delete_fixup17$w_right" "_rb_delete_fixup17$w" 2 (by decide)
+      (by rw [ew1]; exact hinw) wr.ptr (by rw [ew1, rowOf_nat, hia1]; exact hw2)
+    generalize hs2' : ({ s1 with ienv := setS s1.ienv "_rb_delete_fixup17$w_right" wr.ptr } : State F) = s2' at h2
+    have hv2' : VS s2' n := by rw [← hs2']; exact hv1.of_eq rfl rfl rfl
+    have hrun2' : s2'.ctl = .run := by rw [← hs2']; exact hrun1
+    have hia2' : s2'.ia = s.ia := by rw [← hs2']; exact hia1
+    have ex2' : s2'.ienv "_rb_delete_fixup17$x" = x := by rw [← hs2', ← hs1]; simp [setS, hx]
+    have h3 := exec_ldN fuel n s2' hv2'.shpN "_rb_delete_fixup17$x_parent" "_rb_delete_fixup17$x" 3 (by decide)
+      (by rw [ex2']; exact hinx) p (by rw [ex2', rowOf_nat, hia2']; exact hx3)
+    generalize hs2 : ({ s2' with ienv := setS s2'.ienv "_rb_delete_fixup17$x_parent" (p : Int) } : State F) = s2 at h3
+    have hv2 : VS s2 n := by rw [← hs2]; exact hv2'.of_eq rfl rfl rfl
+    have hrun2 : s2.ctl = .run := by rw [← hs2]; exact hrun2'
+    have hia2 : s2.ia = s.ia := by rw [← hs2]; exact hia2'
+    have hfa2 : s2.fa = s.fa := by rw [← hs2, ← hs2', ← hs1]
+    have ew2 : s2.ienv "_rb_delete_fixup17$w" = w := by rw [← hs2, ← hs2']; simp [setS, ew1]
+    have ewl2 : s2.ienv "_rb_delete_fixup17$w_left" = wl.ptr := by rw [← hs2, ← hs2', ← hs1]; simp [setS]
+    have ewr2 : s2.ienv "_rb_delete_fixup17$w_right" = wr.ptr := by rw [← hs2, ← hs2']; simp [setS]
+    have ex2 : s2.ienv "_rb_delete_fixup17$x" = x := by rw [← hs2]; simp [setS, ex2']
+    have exp2 : s2.ienv "_rb_delete_fixup17$x_parent" = p := by rw [← hs2]; simp [setS]
+    have er2 : s2.ienv "_rb_delete_fixup17$root" = s.ienv "_rb_delete_fixup17$root" := by rw [← hs2, ← hs2', ← hs1]; simp [setS]
+    have hrest : exec fuel dfRightB s = exec fuel (.ite (.and (.cmpI .eq (.ld2 "tree_nodes" (.var "_rb_delete_fixup17$w_right") (.lit 0)) (.lit 1)) (.cmpI .eq (.ld2 "tree_nodes" (.var "_rb_delete_fixup17$w_left") (.lit 0)) (.lit 1)))
+        dfCase2R
+        (.seq (.ite (.cmpI .eq (.ld2 "tree_nodes" (.var "_rb_delete_fixup17$w_left") (.lit 0)) (.lit 1))
+            (.seq (.stI2 "tree_nodes" (.var "_rb_delete_fixup17$w_right") (.lit 0) (.lit 1))
+            (.seq (.stI2 "tree_nodes" (.var "_rb_delete_fixup17$w") (.lit 0) (.lit 0))
+            (dlrot30
+            (.setI "_rb_delete_fixup17$w" (.ld2 "tree_nodes" (.var "_rb_delete_fixup17$x_parent") (.lit 1))))))
+            .skip)
+        (.seq (.stI2 "tree_nodes" (.var "_rb_delete_fixup17$w") (.lit 0) (.ld2 "tree_nodes" (.var "_rb_delete_fixup17$x_parent") (.lit 0)))
+        (.seq (.stI2 "tree_nodes" (.var "_rb_delete_fixup17$x_parent") (.lit 0) (.lit 1))
+        (.seq (.setI "_rb_delete_fixup17$w_left" (.ld2 "tree_nodes" (.var "_rb_delete_fixup17$w") (.lit 1)))
+        (.seq (.stI2 "tree_nodes" (.var "_rb_delete_fixup17$w_left") (.lit 0) (.lit 1))
+        (drrot33
+        (.setI "_rb_delete_fixup17$x" (.var "_rb_delete_fixup17$root"))))))))) s2 := by
+      simp only [dfRightB]
+      rw [exec_seq_run _ _ _ _ (by
+        rw [exec_ite_false _ _ _ _ _ (by simp [BE.ok, IE.ok_var, IE.ok_lit]) (by simp [BE.eval, IE.eval_var, IE.eval_lit, cmpInt, ew, hwne]), exec_skip]; exact hrun),
+        exec_ite_false _ _ _ _ _ (by simp [BE.ok, IE.ok_var, IE.ok_lit]) (by simp [BE.eval, IE.eval_var, IE.eval_lit, cmpInt, ew, hwne]), exec_skip,
+        exec_seq_run _ _ _ _ (by rw [h1]; exact hrun1), h1, exec_seq_run _ _ _ _ (by rw [h2]; exact hrun2'), h2,
+        exec_seq_run _ _ _ _ (by rw [h3]; exact hrun2), h3]
+    rw [hrest]
+    -- the colour tests
+    have hinwl := hlwl.inRange hv.pos
+    have hinwr := hlwr.inRange hv.pos
+    have hmemw : ∀ j ∈ (Sh.node wl w wr).idxs, j ∈ (plug (.node xl x xr) (.R (.node wl w wr) p :: restB)).idxs := fun j hj => by
+      have : j ∈ (plug (Sh.node (Sh.node wl w wr) p (Sh.node xl x xr)) restB).idxs := mem_plug _ restB _ (List.mem_append_left _ hj)
+      exact this
+    have hbl := black_test (s.fa "tree_vals") (s.ia "tree_nodes") n wl _ hlwl hnil (fun j hj => hcol j (hmemw j (by simp [Sh.idxs, hj])))
+    have hbr := black_test (s.fa "tree_vals") (s.ia "tree_nodes") n wr _ hlwr hnil (fun j hj => hcol j (hmemw j (by simp [Sh.idxs, hj])))
+    have hok_both : BE.ok s2 (.and (.cmpI .eq (.ld2 "tree_nodes" (.var "_rb_delete_fixup17$w_right") (.lit 0)) (.lit 1)) (.cmpI .eq (.ld2 "tree_nodes" (.var "_rb_delete_fixup17$w_left") (.lit 0)) (.lit 1))) = true := by
+      simp [BE.ok, okN s2 n hv2.shpN, ewl2, ewr2, hinwl, hinwr, IE.ok_lit]
+    have hev_both : BE.eval s2 (.and (.cmpI .eq (.ld2 "tree_nodes" (.var "_rb_delete_fixup17$w_right") (.lit 0)) (.lit 1)) (.cmpI .eq (.ld2 "tree_nodes" (.var "_rb_delete_fixup17$w_left") (.lit 0)) (.lit 1))) =
+        (!(isRed (absT (s.fa "tree_vals") (s.ia "tree_nodes") wr)) && !(isRed (absT (s.fa "tree_vals") (s.ia "tree_nodes") wl))) := by
+      simp only [BE.eval_and, BE.eval_cmpI, evalN s2 n hv2.shpN _ 0 (by decide : (0 : Int) ≤ 0), ewl2, ewr2, hia2, IE.eval_lit, cmpInt]
+      rw [← hbl, ← hbr]; rfl
+    have hsubw' : subAt ((restB.map Fr.dir).reverse ++ [Dir.R.flip]) T =
+        .node (absT (s.fa "tree_vals") (s.ia "tree_nodes") wl) (nodeAt (s.fa "tree_vals") w) (vAt (s.fa "tree_vals") w 7)
+          (decide (nAt (s.ia "tree_nodes") w 0 = 0)) (absT (s.fa "tree_vals") (s.ia "tree_nodes") wr) := by
+      rw [hpg]; exact hsubw
+    by_cases hboth : (!(isRed (absT (s.fa "tree_vals") (s.ia "tree_nodes") wr)) && !(isRed (absT (s.fa "tree_vals") (s.ia "tree_nodes") wl))) = true
+    · -- case 2
+      obtain ⟨c1', c2, c3, c4, c5, c6, c7, c8, c9, c10⟩ := dcase2R_spec fuel n s2 hv2 hrun2 xl x xr p wl w wr restB
+        (by rw [hia2]; exact hL) hN ew2 exp2
+      rw [exec_ite_true _ _ _ _ _ hok_both (by rw [hev_both]; exact hboth)]
+      generalize hs3 : exec fuel dfCase2R s2 = s3 at c1' c2 c3 c4 c5 c6 c7 c8 c9 c10
+      rw [hfa2, hia2] at c5
+      simp only [Bool.and_eq_true, Bool.not_eq_true'] at hboth
+      refine ⟨Or.inl c1', .node wl w wr, p, .node xl x xr, restB, ?_, ?_, rfl, by rw [c3, hfa2]; exact hS, ?_⟩
+      · exact ⟨c2.of_eq rfl rfl rfl, rfl, c4, hN, c6, by show s3.ienv _ = _; rw [c7, er2, hroot]; rfl,
+          by show nAt (s3.ia "tree_nodes") _ _ = _; rw [c8, hia2]; exact hnil,
+          fun j hj => by
+            show ColV (nAt (s3.ia "tree_nodes") j 0)
+            exact c9 j (by rw [hia2]; exact hcol j hj)⟩
+      · cases c1 with
+        | false => exact Or.inl (hb rfl)
+        | true => exact Or.inr (Or.inr (by rw [c10, hia2]; exact hc1 rfl))
+      · show delFixP S (restB.map Fr.dir) (absT (s3.fa "tree_vals") (s3.ia "tree_nodes") (plug (.node (.node wl w wr) p (.node xl x xr)) restB)) = _
+        have c5' : absT (s3.fa "tree_vals") (s3.ia "tree_nodes") (plug (.node (.node wl w wr) p (.node xl x xr)) restB) =
+            atPath (setCol true) (pathOf restB ++ [Dir.L]) T := by rw [← hT]; exact c5
+        rw [dfB_case2 S Dir.R c1 _ _ T _ _ _ _ _ hsubw' hboth.1 hboth.2, hpg]
+        cases c1 with
+        | false => rw [c5']; rfl
+        | true =>
+          simp only [if_true]
+          have := delFixP_stop S (s3.fa "tree_vals") (s3.ia "tree_nodes") (.node wl w wr) p (.node xl x xr) restB
+            (Or.inr (by rw [c10, hia2]; exact hc1 rfl))
+          rw [this, c5']; rfl
+    · -- cases 3 / 4
+      have hboth' : (!(isRed (absT (s.fa "tree_vals") (s.ia "tree_nodes") wr)) && !(isRed (absT (s.fa "tree_vals") (s.ia "tree_nodes") wl))) = false := by
+        cases hh : (!(isRed (absT (s.fa "tree_vals") (s.ia "tree_nodes") wr)) && !(isRed (absT (s.fa "tree_vals") (s.ia "tree_nodes") wl)))
+        · rfl
+        · exact absurd hh hboth
+      rw [exec_ite_false _ _ _ _ _ hok_both (by rw [hev_both]; exact hboth')]
+      have hok3 : BE.ok s2 (.cmpI .eq (.ld2 "tree_nodes" (.var "_rb_delete_fixup17$w_left") (.lit 0)) (.lit 1)) = true := by
+        simp [BE.ok, okN s2 n hv2.shpN, ewl2, hinwl, IE.ok_lit]
+      have hev3 : BE.eval s2 (.cmpI .eq (.ld2 "tree_nodes" (.var "_rb_delete_fixup17$w_left") (.lit 0)) (.lit 1)) =
+          !(isRed (absT (s.fa "tree_vals") (s.ia "tree_nodes") wl)) := by
+        simp only [BE.eval_cmpI, evalN s2 n hv2.shpN _ 0 (by decide : (0 : Int) ≤ 0), ewl2, hia2, IE.eval_lit, cmpInt]
+        rw [← hbl]; rfl
+      have hpcol : ColV (nAt (s.ia "tree_nodes") p 0) := hcol p (by
+        have : p ∈ (plug (Sh.node (Sh.node wl w wr) p (Sh.node xl x xr)) restB).idxs := mem_plug _ restB _ (by simp [Sh.idxs])
+        exact this)
+      by_cases hfar : isRed (absT (s.fa "tree_vals") (s.ia "tree_nodes") wl) = true
+      · -- case 4 directly: the far child is a red node
+        obtain ⟨fl, f, fr, rfl⟩ : ∃ fl f fr, wl = .node fl f fr := by
+          cases wl with
+          | nil => simp [absT, isRed] at hfar
+          | node a b c => exact ⟨a, b, c, rfl⟩
+        obtain ⟨d1, d2, d3, d4, d5, d6, d7, d8, d9, d10⟩ := dcase4R_spec fuel n s2 hv2 hrun2 xl x xr p fl f fr w wr restB
+          (by rw [hia2]; exact hL) hN ew2 exp2 (by rw [er2]; exact hroot) (by rw [hia2]; exact hpcol)
+        rw [exec_seq_run _ _ _ _ (by
+          rw [exec_ite_false _ _ _ _ _ hok3 (by rw [hev3, hfar]; rfl), exec_skip]; exact hrun2),
+          exec_ite_false _ _ _ _ _ hok3 (by rw [hev3, hfar]; rfl), exec_skip]
+        generalize hs3 : exec fuel _ s2 = s3 at d1 d2 d3 d5 d6 d7 d8 d9 d10
+        obtain ⟨l4, i4, r4, hsh4⟩ := plug_is_node restB (.node fl f fr) w (.node wr p (.node xl x xr))
+        rw [hsh4] at d3 d4 d5 d6 d7
+        rw [hfa2, hia2] at d5
+        refine ⟨Or.inl d1, l4, i4, r4, [], ?_, Or.inr (Or.inl rfl), ?_, by rw [d8, hfa2]; exact hS, ?_⟩
+        · exact ⟨d2.of_eq rfl rfl rfl, rfl, d3, d4, d6, d7, by show nAt (s3.ia "tree_nodes") _ _ = _; rw [d9, hia2]; exact hnil,
+            fun j hj => by
+              show ColV (nAt (s3.ia "tree_nodes") j 0)
+              refine d10 j ?_
+              rw [hia2]; refine hcol j ?_
+              have e1 : (plug (Sh.node l4 i4 r4) []).idxs = (plug (.node (.node fl f fr) w (.node wr p (.node xl x xr))) restB).idxs := by
+                rw [← hsh4]; rfl
+              rw [e1] at hj
+              have e2 := idxs_plug_congr restB (.node (.node fl f fr) w (.node wr p (.node xl x xr)))
+                (.node (.node (.node fl f fr) w wr) p (.node xl x xr)) (by simp [Sh.idxs])
+              rw [e2] at hj; exact hj⟩
+        · show (Sh.node l4 i4 r4).idxs = _
+          rw [← hsh4]
+          exact idxs_plug_congr restB _ (.node (.node (.node fl f fr) w wr) p (.node xl x xr)) (by simp [Sh.idxs])
+        · show delFixP S [] (absT (s3.fa "tree_vals") (s3.ia "tree_nodes") (.node l4 i4 r4)) = _
+          have hpT : isRed (subAt (pathOf restB) T) = decide (nAt (s.ia "tree_nodes") p 0 = 0) := by
+            rw [← hT]; exact hsubp _ _ _
+          rw [delFixP_nil, d5, hS, hT, dfB_case4 S Dir.R c1 _ _ T _ _ _ _ _ hsubw' hfar, hpg, hpT]
+          rfl
+      · -- case 3, then case 4: the near child is a red node
+        have hfar' : isRed (absT (s.fa "tree_vals") (s.ia "tree_nodes") wl) = false := by
+          cases hh : isRed (absT (s.fa "tree_vals") (s.ia "tree_nodes") wl)
+          · rfl
+          · exact absurd hh hfar
+        have hnear : isRed (absT (s.fa "tree_vals") (s.ia "tree_nodes") wr) = true := by
+          rw [hfar'] at hboth'
+          cases hh : isRed (absT (s.fa "tree_vals") (s.ia "tree_nodes") wr)
+          · rw [hh] at hboth'; simp at hboth'
+          · rfl
+        obtain ⟨a, b, c, rfl⟩ : ∃ a b c, wr = .node a b c := by
+          cases wr with
+          | nil => simp [absT, isRed] at hnear
+          | node a b c => exact ⟨a, b, c, rfl⟩
+        simp only [Sh.ptr] at ewr2
+        obtain ⟨e1, e2, e3, e4, e5, e6, e7, e8, e9, e10, e11, e12, e13, e14⟩ := dcase3R_spec fuel n s2 hv2 hrun2 xl x xr p
+          wl w a b c restB (by rw [hia2]; exact hL) hN ew2 ewr2 exp2 (by rw [er2]; exact hroot)
+        generalize hs3 : exec fuel (.seq (.stI2 "tree_nodes" (.var "_rb_delete_fixup17$w_right") (.lit 0) (.lit 1))
+            (.seq (.stI2 "tree_nodes" (.var "_rb_delete_fixup17$w") (.lit 0) (.lit 0))
+            (dlrot30
+            (.setI "_rb_delete_fixup17$w" (.ld2 "tree_nodes" (.var "_rb_delete_fixup17$x_parent") (.lit 1)))))) s2 = s3
+          at e1 e2 e3 e5 e6 e7 e8 e9 e10 e11 e12 e13 e14
+        rw [hfa2, hia2] at e5
+        rw [hia2] at e11 e12 e13
+        obtain ⟨d1, d2, d3, d4, d5, d6, d7, d8, d9, d10⟩ := dcase4R_spec fuel n s3 e2 e1 xl x xr p wl w a b c restB
+          e3 e4 e6 e7 e9 (by rw [e13]; exact hpcol)
+        rw [exec_seq_run _ _ _ _ (by
+          rw [exec_ite_true _ _ _ _ _ hok3 (by rw [hev3, hfar']; rfl), hs3]; exact e1),
+          exec_ite_true _ _ _ _ _ hok3 (by rw [hev3, hfar']; rfl), hs3]
+        generalize hs4 : exec fuel _ s3 = s4 at d1 d2 d3 d5 d6 d7 d8 d9 d10
+        obtain ⟨l4, i4, r4, hsh4⟩ := plug_is_node restB (.node wl w a) b (.node c p (.node xl x xr))
+        rw [hsh4] at d3 d4 d5 d6 d7
+        rw [e5, e10, hfa2, e13] at d5
+        refine ⟨Or.inl d1, l4, i4, r4, [], ?_, Or.inr (Or.inl rfl), ?_, by rw [d8, e10, hfa2]; exact hS, ?_⟩
+        · exact ⟨d2.of_eq rfl rfl rfl, rfl, d3, d4, d6, d7,
+            by show nAt (s4.ia "tree_nodes") _ _ = _; rw [d9, e11]; exact hnil,
+            fun j hj => by
+              show ColV (nAt (s4.ia "tree_nodes") j 0)
+              refine d10 j (e12 j (hcol j ?_))
+              have q1 : (plug (Sh.node l4 i4 r4) []).idxs = (plug (.node (.node wl w a) b (.node c p (.node xl x xr))) restB).idxs := by
+                rw [← hsh4]; rfl
+              rw [q1] at hj
+              have q2 := idxs_plug_congr restB (.node (.node wl w a) b (.node c p (.node xl x xr)))
+                (.node (.node wl w (.node a b c)) p (.node xl x xr)) (by simp [Sh.idxs])
+              rw [q2] at hj; exact hj⟩
+        · show (Sh.node l4 i4 r4).idxs = _
+          rw [← hsh4]
+          exact idxs_plug_congr restB _ (.node (.node wl w (.node a b c)) p (.node xl x xr)) (by simp [Sh.idxs])
+        · show delFixP S [] (absT (s4.fa "tree_vals") (s4.ia "tree_nodes") (.node l4 i4 r4)) = _
+          rw [delFixP_nil, d5]
+          rw [dfB_case3 S Dir.R c1 _ _ T _ _ _ _ _ hsubw' hnear hfar', hpg, hS, hT]
+          have hcp : isRed (subAt (pathOf restB) (atPath (rotD S Dir.R.flip) (pathOf restB ++ [Dir.R.flip])
+              (atPath (setCol true) (pathOf restB ++ [Dir.R.flip]) (atPath (setCol false) (pathOf restB ++ [Dir.R.flip] ++ [Dir.R]) T)))) =
+              decide (nAt (s.ia "tree_nodes") p 0 = 0) := by
+            have := hsubp (s3.fa "tree_vals") (s3.ia "tree_nodes") (.node (.node wl w a) b c)
+            rw [e5, e13, hS, hT] at this
+            exact this
+          simp only [hcp]
+          rfl
+
 end XrsVerif.ILVs
